@@ -40,6 +40,18 @@ def generate(rng, tier):
         for j in range(len(o["positions"])):
             if rng.random() < 0.4:
                 o["positions"][j] = (np.array(o["positions"][j]) + rng.choice([-1, 1, 2]) * c[rng.randrange(3)]).tolist()
+    if rng.random() < 0.12:
+        # the same crystal in other length units (metres, micrometres, picometre-scale numbers): nothing in the statement depends on
+        # the unit, so nothing may be compared against an absolute length
+        spec["scale"] = rng.choice([1e-10, 1e-9, 1e-4, 1e3])
+        for o in spec["objects"]:
+            o["positions"] = (np.array(o["positions"], float) * spec["scale"]).tolist()
+            o["cell"] = (np.array(o["cell"], float) * spec["scale"]).tolist()
+        for op in spec["ops"]:
+            if op["op"] == "translate":
+                op["delta"] = [x * spec["scale"] for x in op["delta"]]
+            elif op["op"] == "extend":
+                op["shift_scale"] = spec["scale"]
     spec["reps"] = [{"src": rng.randrange(n) if "coincident_axis" not in spec or rng.random() < 0.3 else 0, "dims": rng.choice(DIMS)} for _ in range(rng.randint(1, 3))]
     return spec
 
@@ -69,7 +81,10 @@ def execute(spec, ctx):
             raise Violation("c12:atom-count", "replicate%s of %d atoms gave %d" % (dims, len(m.atoms), len(res)), site="replicate")
         refmodel.structural_invariants(res, where)
         blocks = getattr(pool, "_replicate_blocks", False)
-        refmodel.compare(refmodel.abstract(res), resm, "c12", where, order="exact" if blocks else "any", pos_tol=1e-9, cell_tol=1e-9)
+        refmodel.compare(refmodel.abstract(res), resm, "c12", where, order="exact" if blocks else "any",
+                         pos_tol=1e-9 * spec.get("scale", 1.0), cell_tol=1e-9 * spec.get("scale", 1.0))
+        if spec.get("scale"):
+            ctx.count("replications_in_other_length_units")
         # the infinite crystal is unchanged: fractional coordinates in the new cell times the factors, modulo 1, reproduce
         # the original fractional coordinates (independent of the model's own arithmetic)
         c0, c1 = np.array(m.cell, float), np.array(res.cell, float)
